@@ -52,7 +52,7 @@ func diskNextFree() uint64 {
 
 func armImage(kind string, off uint64) {
 	arm.n++
-	ev := proto.Event{Seq: arm.n, K: kind, Off: off, Stmt: arm.rec}
+	ev := proto.Event{Seq: arm.n, K: kind, Off: off, Stmt: arm.rec, G: int64(curOp)}
 	if arm.killAt > 0 {
 		if arm.n == arm.killAt {
 			out.Flush()
@@ -107,7 +107,7 @@ func init() {
 			storage.VerifFlushBegin = func() {
 				arm.flush++
 				arm.inFl = true
-				arm.events = append(arm.events, proto.Event{Seq: 0, K: "flushBegin", Stmt: arm.flush, A: diskNextFree()})
+				arm.events = append(arm.events, proto.Event{Seq: 0, K: "flushBegin", Stmt: arm.flush, A: diskNextFree(), G: int64(curOp)})
 			}
 			storage.VerifFlushEnd = func() {
 				arm.inFl = false
